@@ -403,7 +403,21 @@ def r_disposition(ctx):
                         any(isinstance(p, ast.Try) and any(any(x is c for x in ast.walk(hh)) and 'Full' in unparse(hh.type or ast.Constant(value=''))
                                                             for hh in p.handlers) for p in n_.parents)
                     ctx.tick()
-                    if in_handler:
+                    # the handler catches nothing but the queue's Full: anything broader also catches what is raised after the item was queued
+                    broad = None
+                    for p in n_.parents:
+                        if isinstance(p, ast.Try):
+                            for hh in p.handlers:
+                                if any(x is c for x in ast.walk(hh)):
+                                    elts = hh.type.elts if isinstance(hh.type, ast.Tuple) else [hh.type]
+                                    if hh.type is None or any(not unparse(e_).split('.')[-1] == 'Full' for e_ in elts):
+                                        broad = hh
+                    if in_handler and broad is not None:
+                        ctx.violation('%s:queue-full-handler-too-broad' % g.qualname, g.loc(c),
+                                      'QUEUE_FULL is reported from `except %s`: an exception raised after the command was queued (e.g. by the wake-up notification) is reported as '
+                                      'QUEUE_FULL although the command stays queued and is applied later -- the callback then fires a second time' % (unparse(broad.type) if broad.type is not None else ''),
+                                      instance='QUEUE_FULL site')
+                    elif in_handler:
                         ctx.ok('QUEUE_FULL reported only where the queue raised Full', g.loc(c), 'inside `except Queue.Full`')
                     else:
                         ctx.violation('%s:queue-full-elsewhere' % g.qualname, g.loc(c), 'QUEUE_FULL reported outside the handler of the queue\'s Full exception',
